@@ -831,6 +831,14 @@ class _Normalise(ast.NodeTransformer):
 
     def visit_Call(self, node):
         self.generic_visit(node)
+        # functools.partial(F, a, k=v)  ->  lambda *_a, **_k: F(a, *_a, k=v, **_k)
+        if _dotted(node.func) in ("functools.partial", "partial") and node.args and not isinstance(node.args[0], ast.Starred) and _dotted(node.args[0]):
+            call = ast.Call(func=node.args[0], args=list(node.args[1:]) + [ast.Starred(value=ast.Name(id="_a", ctx=ast.Load()), ctx=ast.Load())], keywords=list(node.keywords) + [ast.keyword(arg=None, value=ast.Name(id="_k", ctx=ast.Load()))])
+            lam = ast.Lambda(args=ast.arguments(posonlyargs=[], args=[], vararg=ast.arg(arg="_a"), kwonlyargs=[], kw_defaults=[], kwarg=ast.arg(arg="_k"), defaults=[]), body=call)
+            for y in ast.walk(lam):
+                if not hasattr(y, "lineno"):
+                    ast.copy_location(y, node)
+            return ast.copy_location(lam, node)
         # set algebra spelled as a method: a.union(b) -> a | b   (analysis vocabulary only)
         if isinstance(node.func, ast.Attribute) and node.func.attr == "union" and len(node.args) == 1 and not node.keywords and not isinstance(node.args[0], ast.Starred):
             return ast.copy_location(ast.BinOp(left=node.func.value, op=ast.BitOr(), right=node.args[0]), node)
@@ -859,6 +867,10 @@ class _Normalise(ast.NodeTransformer):
             if comp is not None:
                 stmts = stmts[:i] + [comp] + stmts[i + 2:]
                 continue
+            unrolled = self._unroll(st)
+            if unrolled is not None:
+                stmts = stmts[:i] + unrolled + stmts[i + 1:]
+                continue
             upd = self._update_comp(st)
             if upd is not None:
                 stmts = stmts[:i] + [upd] + stmts[i + 1:]
@@ -869,6 +881,30 @@ class _Normalise(ast.NodeTransformer):
                 continue
             out.append(st)
             i += 1
+        return out
+
+    @staticmethod
+    def _unroll(st):
+        """`for v in (e1, ..., en): BODY` over a literal tuple/list of simple expressions (n <= 6, no break/continue/else, v not
+        rebound): BODY[v := e1]; ...; BODY[v := en]"""
+        if not (isinstance(st, ast.For) and not st.orelse and isinstance(st.target, ast.Name) and isinstance(st.iter, (ast.Tuple, ast.List))):
+            return None
+        elts = st.iter.elts
+        if not (1 <= len(elts) <= 6) or not all(_is_simple_expr(e) for e in elts):
+            return None
+        v = st.target.id
+        for b in st.body:
+            for x in ast.walk(b):
+                if isinstance(x, (ast.Break, ast.Continue, ast.FunctionDef, ast.AsyncFunctionDef, ast.Lambda)):
+                    return None
+                if isinstance(x, ast.Name) and x.id == v and isinstance(x.ctx, (ast.Store, ast.Del)):
+                    return None
+        out = []
+        for e in elts:
+            for b in st.body:
+                nb = _Subst({v: e}).visit(copy.deepcopy(b))
+                ast.fix_missing_locations(nb)
+                out.append(nb)
         return out
 
     @staticmethod
